@@ -68,7 +68,8 @@ def make_layer(case, dtype=torch.float64):
     from pytorch_wavelets import ScatLayer, ScatLayerj2
     with dwtu.default_dtype(dtype):
         if case['order'] == 1:
-            return ScatLayer(biort=case['biort'], magbias=case['bias'], combine_colour=case['colour'])
+            return ScatLayer(biort=case['biort'], magbias=case['bias'], combine_colour=case['colour'],
+                             mode=case.get('mode', 'symmetric'))
         return ScatLayerj2(biort=case['biort'], qshift=case['qshift'], magbias=case['bias'],
                            combine_colour=case['colour'])
 
